@@ -195,7 +195,7 @@ def orders_for(rng, n, tier):
 
 
 def gen(rng, tier):
-    reps = 2 if tier == 'quick' else 20
+    reps = 2 if tier == 'quick' else 40
     cases = [c for c in kat_cases() + rand_kat_cases(rng, 40 if tier == 'quick' else 1000) if c['alg'] == 'tdes']
     vias = ['func', 'iso0', 'iso4', 'iso0d']
     for via, pin, pan, kidx, key, want in DOC_PVV:
